@@ -100,6 +100,16 @@ def mode_name(d):
 
 def run_l1(run, pid, rng, n, valid_bias=0.7):
     tables = [replies.gen_table(rng, valid_bias) for _ in range(n)]
+    # a fifth more: tables in which a method claims several handler names (one of them shared with other methods, at any
+    # position of its list) - the rarest shape of the plain stream and the one with the most bookkeeping in the macro
+    want, tries = max(10, n // 5), 0
+    while want and tries < 60 * n:
+        tries += 1
+        t = replies.gen_table(rng, 0.9)
+        if any(len(m.handlers) >= 2 for m in t):
+            tables.append(t)
+            want -= 1
+    n = len(tables)
     progs = [RProg(t, decor=replies.gen_decor(rng)) for t in tables]
     reqs = [("r%d" % i, "contract", "", p.contract().rust_impl()) for i, p in enumerate(progs)]
     res = common.probe_run(reqs, tag=pid.lower() + "r")
